@@ -314,4 +314,89 @@ theorem collisionFreeOn_list {H : Type} {hf : HashFns H} {l : List (HashIn H)}
     CollisionFreeOn hf (fun x => x ∈ l) :=
   fun x y hx hy e => h x hx y hy e
 
+/-- the form for the union of two lists -/
+theorem collisionFreeOn_append {H : Type} {hf : HashFns H} {l₁ l₂ : List (HashIn H)}
+    (h : ∀ x ∈ l₁ ++ l₂, ∀ y ∈ l₁ ++ l₂, hf.eval x = hf.eval y → x = y) :
+    CollisionFreeOn hf (fun x => x ∈ l₁ ∨ x ∈ l₂) :=
+  fun x y hx hy e => h x (List.mem_append.2 hx) y (List.mem_append.2 hy) e
+
+/-! ## searching a finite list for a collision -/
+
+/-- the first pair `(x, y)` of `l × l` (row major) with `x ≠ y` and `hf.eval x = hf.eval y` -/
+def findCollision {H : Type} [DecidableEq H] (hf : HashFns H) (l : List (HashIn H)) :
+    Option (HashIn H × HashIn H) :=
+  (l.flatMap fun x => l.map fun y => (x, y)).find?
+    fun p => decide (p.1 ≠ p.2) && decide (hf.eval p.1 = hf.eval p.2)
+
+/-- whatever the search returns is a collision inside the list -/
+theorem findCollision_some {H : Type} [DecidableEq H] {hf : HashFns H} {l : List (HashIn H)}
+    {x y : HashIn H} (h : findCollision hf l = some (x, y)) :
+    x ∈ l ∧ y ∈ l ∧ x ≠ y ∧ hf.eval x = hf.eval y := by
+  unfold findCollision at h
+  have hp := List.find?_some h
+  have hm := List.mem_of_find?_eq_some h
+  simp only [Bool.and_eq_true, decide_eq_true_eq] at hp
+  simp only [List.mem_flatMap, List.mem_map] at hm
+  obtain ⟨a, ha, b, hb, hab⟩ := hm
+  injection hab with h1 h2
+  subst h1 h2
+  exact ⟨ha, hb, hp.1, hp.2⟩
+
+/-- the search succeeds as soon as the list contains a collision -/
+theorem findCollision_complete {H : Type} [DecidableEq H] {hf : HashFns H} {l : List (HashIn H)}
+    {x y : HashIn H} (hx : x ∈ l) (hy : y ∈ l) (hne : x ≠ y) (he : hf.eval x = hf.eval y) :
+    ∃ x' y', findCollision hf l = some (x', y') := by
+  have : (findCollision hf l).isSome = true := by
+    unfold findCollision
+    rw [List.find?_isSome]
+    refine ⟨(x, y), ?_, ?_⟩
+    · simp only [List.mem_flatMap, List.mem_map]
+      exact ⟨x, hx, y, hy, rfl⟩
+    · simp only [Bool.and_eq_true, decide_eq_true_eq]
+      exact ⟨hne, he⟩
+  obtain ⟨⟨x', y'⟩, h⟩ := Option.isSome_iff_exists.1 this
+  exact ⟨x', y', h⟩
+
+/-! ## a toy instance WITH the 32-byte wire round trip
+
+Hashes are byte strings of length 32, `toBytes` is the identity on them and `ofBytes` its inverse,
+so `hrt` and `hlen` hold.  By pigeonhole (`Lemmas/CFUnsat.lean`) such an instance can not be
+globally collision free (`toy32_not_cf` shows a collision); it can be collision free on the
+finitely many inputs of a concrete run, which `decide` checks. -/
+
+/-- 32-byte strings -/
+abbrev H32 : Type := { l : List UInt8 // l.length = 32 }
+
+/-- truncate / zero-pad to 32 bytes -/
+def pad32 (l : List UInt8) : H32 :=
+  ⟨(l ++ List.replicate 32 0).take 32, by simp [List.length_take]⟩
+
+def flagByte (r : Bool) : UInt8 := if r then 1 else 0
+
+/-- a 16 bit checksum -/
+def checksum (b : List UInt8) : Nat := b.foldl (fun a x => (a * 31 + x.toNat) % 65521) 7
+
+/-- a toy hash into 32 bytes (tag, root flag, counter / lengths / checksum of the data, resp. 15
+bytes of each child) -/
+def toy32 : HashFns H32 where
+  chunkCv c b r :=
+    pad32 [0, flagByte r, UInt8.ofNat c, UInt8.ofNat b.length, UInt8.ofNat (b.length / 256),
+      UInt8.ofNat (checksum b), UInt8.ofNat (checksum b / 256)]
+  parentCv l r f := pad32 ([1, flagByte f] ++ l.1.take 15 ++ r.1.take 15)
+  ofBytes b := if h : b.length = 32 then ⟨b, h⟩ else pad32 []
+  toBytes h := h.1
+
+theorem toy32_len : ∀ h, (toy32.toBytes h).length = 32 := fun h => h.2
+
+theorem toy32_rt : ∀ h, toy32.ofBytes (toy32.toBytes h) = h := by
+  intro h
+  simp only [toy32, h.2, dite_true]
+
+/-- the toy hash is (of course) not globally collision free: the chunk counter is taken mod 256 -/
+theorem toy32_not_cf : ¬ CollisionFree toy32 := by
+  intro cf
+  have := cf (.chunk 0 [] false) (.chunk 256 [] false) (by decide)
+  injection this with h
+  exact absurd h (by decide)
+
 end Bao
